@@ -468,6 +468,29 @@ def _info_sets(out, specs, r):
     except Exception as e:
         out.fail("info-sets-raise:" + type(e).__name__, repr(e))
         return
+    # two StreamSeedInformation objects: the seed lists configured in one are not the seed lists of the other
+    try:
+        from pydsol.core.streams import StreamSeedInformation
+        nm0 = next((sp[0] for sp in specs if sp[0] != "default"), None)
+        if nm0 is not None:
+            ia = StreamSeedInformation()
+            ia.add_stream(nm0, MersenneTwister(specs[0][1]))
+            ia.add_seed_values(nm0, [900 + k for k in range(r + 2)] if r < 64 else [900])
+            ib = StreamSeedInformation()
+            ib.add_stream(nm0, MersenneTwister(specs[0][1]))
+            if nm0 in ib.get_seeds():
+                out.fail("stream-sets:seed-list-of-another-set-used", {"stream": nm0, "seeds": ib.get_seeds()[nm0][:3]})
+                return
+            _seeded(ib.get_seeds()).update_seeds(ib.get_streams(), r)
+            alone_b = MersenneTwister(specs[0][1])
+            _simple().update_seed(nm0, alone_b, r)
+            if ib.get_stream(nm0).seed() != alone_b.seed():
+                out.fail("stream-sets:seed-list-of-another-set-used",
+                         {"stream": nm0, "got": ib.get_stream(nm0).seed(), "fallback": alone_b.seed(), "r": r})
+                return
+    except Exception as e:
+        out.fail("info-sets-raise:" + type(e).__name__, repr(e))
+        return
     if seeds_a != want or seeds_b != want:
         out.fail("stream-sets:seed-differs-from-a-set-alone", {"r": r, "alone": want, "a": seeds_a, "b": seeds_b})
     elif after != seeds_a:
